@@ -8,7 +8,7 @@
    the engine never looks at the rest. *)
 From Coq Require Import List Bool NArith ZArith Arith Lia.
 From BV Require Import Lib.PyStr Lib.Decimal Lib.Regex Model.Pep440.
-From BV Require Import Proofs.RegexFacts Proofs.DecimalFacts Proofs.Pep440Facts Proofs.DottedFacts Proofs.CalverE2E.
+From BV Require Import Proofs.RegexFacts Proofs.DecimalFacts Proofs.Pep440Facts Proofs.DottedFacts Proofs.DottedJoinFacts.
 Import ListNotations.
 Local Open Scope N_scope.
 
